@@ -46,6 +46,7 @@ BOUNDS = {
     "quick": [
         (2, 160, ("none", "ws", "ws_loud", "cm2", "both", "ws_choice", "cm1"), ("P1", "P2", "P3"), MODS),
         (2, 160, ("ws", "ws_loud", "both"), ("P4", "P5"), MODS),
+        (2, 160, ("ws_pairs",), ("P1", "P4"), ("", "@", "!")),
         (3, 45, ("ws", "cm2", "both_loud"), ("P1", "P3"), ("", "@", "!")),
     ],
     "thorough": [
